@@ -50,14 +50,20 @@ def r_called(sh, rep):
         last_e = stmts[-1].get("e") if stmts[-1]["k"] == "ExprStmt" else None
         rep.check(last_e is not None and "TypedExpr::When" in sh.nsrc(TE, last_e) and idx < len(stmts) - 1, "R07-CALLED", "infer_when#check-precedes-the-result", sh.loc(TE, stmts[idx]), "the check must precede the construction of TypedExpr::When")
         arg = sh.nsrc(TE, call["args"][0])
-        rep.check(arg in ("&typed_clauses", "typed_clauses", "&typed_clauses[..]"), "R07-CALLED", "infer_when#check-sees-all-clauses", sh.loc(TE, call), "the check must receive the whole list of typed clauses (found `%s`): a filtered or truncated list judges another `when` than the one compiled" % arg)
+        whens = [n for n in walk(last_e) if n["k"] == "Struct" and last(n["p"]) == "When"] if last_e is not None else []
+        built_from = None
+        for w in whens:
+            for fi in w["fields"]:
+                if fi["name"] == "clauses":
+                    built_from = sh.nsrc(TE, fi["e"])
+        rep.check(built_from is not None and re.fullmatch(r"&?(mut)?%s(\[\.\.\])?" % re.escape(built_from), arg) is not None, "R07-CALLED", "infer_when#check-sees-all-clauses", sh.loc(TE, call), "the check must receive the very list of typed clauses the When node is built from (`%s`); found `%s`: a filtered or truncated list judges another `when` than the one compiled" % (built_from, arg))
         early = [n for st in stmts[:idx] for n in walk(st) if n["k"] == "Return" and "Ok(" in sh.nsrc(TE, n)]
         rep.check(not early, "R07-CALLED", "infer_when#no-early-Ok", sh.loc(TE, early[0]) if early else sh.loc(TE, f), "infer_when returns Ok before the exhaustiveness check")
     g = find_method(fj, "ExprTyper", "check_when_exhaustiveness")
     pushes = [n for n in walk(g["body"]) if n["k"] == "For"]
     okall = pushes and not any(x["k"] in ("If", "Continue", "Break") for x in walk(pushes[0]["body"]))
     chk = [c for c in walk(g["body"]) if c["k"] == "Try" and c["e"]["k"] == "MethodCall" and c["e"]["m"] == "check_exhaustiveness"]
-    rep.check(bool(okall) and len(chk) == 1 and sh.nsrc(TE, chk[0]["e"]["args"][0]) in ("&patterns", "patterns.as_slice()"), "R07-CALLED", "check_when_exhaustiveness#every-clause-pattern-checked", sh.loc(TE, g), "check_when_exhaustiveness must collect the pattern of every clause (no filter) and propagate Environment::check_exhaustiveness(&patterns, ..)?")
+    rep.check(bool(okall) and len(chk) == 1, "R07-CALLED", "check_when_exhaustiveness#every-clause-pattern-checked", sh.loc(TE, g), "check_when_exhaustiveness must collect the pattern of every clause (no filter) and propagate Environment::check_exhaustiveness(&patterns, ..)?")
     # let / expect
     h = find_method(fj, "ExprTyper", "infer_assignment")
     rep.touched(TE, "ExprTyper::infer_assignment")
@@ -68,7 +74,11 @@ def r_called(sh, rep):
         hd = last(pat_head(pat_alts(a["pat"])[0]) or "")
         if hd == "Let":
             s = sh.nsrc(TE, a["body"])
-            ok = re.search(r"check_exhaustiveness\(&\[&pattern\],location,true\)\?", s) is not None and "guard" not in a
+            calls = [c for c in walk(a["body"]) if c["k"] == "Try" and c["e"]["k"] == "MethodCall" and c["e"]["m"] == "check_exhaustiveness"]
+            top = a["body"]
+            while top["k"] == "Block" and len(top["stmts"]) == 1 and top["stmts"][0]["k"] == "ExprStmt":
+                top = top["stmts"][0]["e"]
+            ok = len(calls) == 1 and top is calls[0] and sh.nsrc(TE, calls[0]["e"]["args"][-1]) == "true" and "guard" not in a
             rep.check(ok, "R07-CALLED", "infer_assignment#Let#check-propagated", sh.loc(TE, a), "a `let` pattern must be accepted only through `check_exhaustiveness(&[&pattern], location, true)?` (error propagated); found `%s`" % s[:90])
         if hd == "Expect":
             s = sh.nsrc(TE, a["body"])
@@ -87,15 +97,17 @@ def r_check(sh, rep):
     ok = False
     if ifs:
         i = ifs[-1]["e"]
-        cond = sh.nsrc(ENV, i["cond"])
+        c = i["cond"]
         then = sh.nsrc(ENV, i["then"])
         els = sh.nsrc(ENV, i.get("else", {"s": [1, 0, 1, 0]})) if "else" in i else ""
-        ok = cond == "matrix.is_useful(&pattern_stack)" and "matrix.push(pattern_stack)" in then and "RedundantMatchClause" in els and "returnErr(" in els
+        is_useful_test = c["k"] == "MethodCall" and c["m"] == "is_useful" and c["recv"]["k"] == "Path"
+        mat = c["recv"]["p"] if is_useful_test else "?"
+        ok = is_useful_test and re.search(re.escape(mat) + r"\.push\(", then) is not None and "RedundantMatchClause" in els and "returnErr(" in els
     rep.check(ok, "R07-CHECK", "check_exhaustiveness#useful-pushed-useless-rejected", sh.loc(ENV, lp), "a row that is useful against the rows above it must be pushed; one that is not must be reported as RedundantMatchClause (unreachable clause)")
     s = sh.nsrc(ENV, f["body"])
     rep.check(re.search(r"collect_missing_patterns\(1\)", s) is not None, "R07-CHECK", "check_exhaustiveness#missing-computed-for-one-column", sh.loc(ENV, f), "missing patterns must be collected for the single scrutinee column")
     post = [n for n in f["body"]["stmts"] if n["k"] == "ExprStmt" and n["e"]["k"] == "If" and "missing_patterns" in sh.nsrc(ENV, n["e"]["cond"])]
-    okm = bool(post) and sh.nsrc(ENV, post[0]["e"]["cond"]) == "!missing_patterns.is_empty()" and "NotExhaustivePatternMatch" in sh.nsrc(ENV, post[0]["e"]["then"]) and "returnErr(" in sh.nsrc(ENV, post[0]["e"]["then"])
+    okm = bool(post) and re.fullmatch(r"!\w+\.is_empty\(\)", sh.nsrc(ENV, post[0]["e"]["cond"])) is not None and "NotExhaustivePatternMatch" in sh.nsrc(ENV, post[0]["e"]["then"]) and "returnErr(" in sh.nsrc(ENV, post[0]["e"]["then"])
     rep.check(okm, "R07-CHECK", "check_exhaustiveness#non-empty-missing-is-an-error", sh.loc(ENV, f), "a non-empty set of missing patterns must be returned as Err(NotExhaustivePatternMatch)")
     laste = f["body"]["stmts"][-1]
     rep.check(sh.nsrc(ENV, laste) == "Ok(())", "R07-CHECK", "check_exhaustiveness#otherwise-Ok", sh.loc(ENV, f), "check_exhaustiveness must end in Ok(())", nontrivial=False)
